@@ -300,6 +300,7 @@ def install(sim, extra_code_prefixes=()):
     PO.threading = th
     PO.mp = mp
     RS.os = osf
+    RS.mp = mp
     RS.signal = sg
     RS.socket = so
     RS.threading = th
@@ -324,5 +325,16 @@ def install(sim, extra_code_prefixes=()):
         'SupportClassPropertiesMeta', 'LazyModule', 'add_module_properties', 'python_is', 'is_windows',
         'typename', 'setproctitle', 'setthreadtitle', '_get_'))
     codes = codes + list(qcodes)
+    if not _os.environ.get('VERIF_NO_STDLIB_CONN'):
+        # multiprocessing.connection: SimConnection inherits the stdlib's Python code for send / recv / framing; instrumenting
+        # it makes every line of it a pre-emption point and every eval-breaker check in it a landing place (e.g. between
+        # the header write and the payload write of a message larger than 16 KiB)
+        import multiprocessing.connection as _mpc
+        import types as _types
+        for cls in (_mpc._ConnectionBase, _mpc.Connection):
+            for name, v in sorted(vars(cls).items()):
+                f = v.fget if isinstance(v, property) else v
+                if isinstance(f, _types.FunctionType) and name not in ('__del__', '__init__', '__enter__', '__exit__', 'fileno', 'close'):
+                    codes.append(f.__code__)
     core.instrument(codes)
     sim.n_instrumented = len(codes)
